@@ -1,5 +1,5 @@
 """Regenerates /verif/MANIFEST.json from the table below (run by hand after adding a check)."""
-import json, sys
+import json, re, sys
 from pathlib import Path
 ROOT = Path(__file__).resolve().parent.parent
 ALL = ["C%02d" % i for i in range(1, 21)]
@@ -14,9 +14,17 @@ def main():
         CHECKS[f.stem] = json.loads(f.read_text())
     # consolidate the known-findings fragments into the single committed file
     findings, fixed = [], []
+    cf = ROOT / "fixes" / "COMMITS.json"
+    commits = json.loads(cf.read_text()) if cf.exists() else {}
     for f in sorted((ROOT / "known_findings.d").glob("C*.json")):
         d = json.loads(f.read_text())
-        findings += d.get("findings", []); fixed += d.get("fixed", [])
+        findings += d.get("findings", [])
+        for line in d.get("fixed", []):
+            # the commit of /repo that carries the repair (recorded by harness/applyfix.sh)
+            mm = re.search(r"fixes/(F[\w.-]+\.diff)", line)
+            if mm and mm.group(1) in commits:
+                line = line.replace("<commit-to-be-filled>", commits[mm.group(1)])
+            fixed.append(line)
     (ROOT / "known_findings.json").write_text(json.dumps(dict(findings=findings, fixed=fixed), indent=1, ensure_ascii=False) + "\n")
     checks = []
     for pid in ALL:
